@@ -26,6 +26,25 @@ type opt struct {
 	TLS  bool   `json:"tls,omitempty" yaml:"tls,omitempty"`
 }
 
+// pair has two adjacent string fields: different members can print alike ({Mary Ann Lee}), so an
+// encoder that identifies members by their printed form loses one.
+type pair struct {
+	First string `json:"first" yaml:"first"`
+	Last  string `json:"last" yaml:"last"`
+}
+
+// ver has its text codec on the POINTER receiver: encoding/json only finds it for addressable
+// values (slice elements are, a range copy handed to an encoder is not).
+type ver struct {
+	Major, Minor int
+}
+
+func (v *ver) MarshalText() ([]byte, error) { return []byte(fmt.Sprintf("v%d.%d", v.Major, v.Minor)), nil }
+func (v *ver) UnmarshalText(b []byte) error {
+	_, err := fmt.Sscanf(string(b), "v%d.%d", &v.Major, &v.Minor)
+	return err
+}
+
 // setOps runs protocol ops on a real set.Set[T]; elements are indices into a universe.
 type setOps interface {
 	execRT(codec, mode string, tgt []string) string
@@ -290,6 +309,8 @@ func newSetImpl() *setImpl {
 		"float":   &typedSet[float64]{uni: []float64{0, 1, -1.5, 0.1, 1e21, 3.141592653589793, 1e-7, 123456789.125, -2, 5e-324, 1.7976931348623157e308, 100}},
 		"bool":    &typedSet[bool]{uni: []bool{false, true}},
 		"ostruct": &typedSet[opt]{uni: []opt{{}, {Host: "a"}, {Port: 443}, {TLS: true}, {Host: "b", Port: 443, TLS: true}, {Host: "a", Port: 80}, {Host: "b"}, {Port: 80, TLS: true}, {Host: "c", TLS: true}, {Host: "c"}}},
+		"pair":    &typedSet[pair]{uni: []pair{{"Mary Ann", "Lee"}, {"Mary", "Ann Lee"}, {"", "Mary Ann Lee"}, {"Mary Ann Lee", ""}, {"a", "b"}, {"a b", ""}, {"", "a b"}, {"", ""}, {" ", ""}, {"", " "}, {"x", "y z"}, {"x y", "z"}}},
+		"ver":     &typedSet[ver]{uni: []ver{{0, 0}, {1, 0}, {0, 1}, {1, 2}, {2, 1}, {10, 0}, {1, 10}, {-1, 3}}},
 		"wint":    &typedSet[int64]{uni: func() []int64 { r := make([]int64, 60); for i := range r { r[i] = int64(i*i*i) - 5000 }; r[59] = 1<<63 - 1; r[58] = -1 << 63; return r }()},
 	}}
 }
@@ -462,7 +483,7 @@ func runC17(f *hx.Flags) {
 	if f.Tier == "thorough" {
 		n = r.N(200000)
 	}
-	kinds := []string{"int", "string", "struct", "ystring", "float", "bool", "wint", "ostruct", "ostruct"}
+	kinds := []string{"int", "string", "struct", "ystring", "float", "bool", "wint", "ostruct", "ostruct", "pair", "pair", "ver"}
 	for i := 0; i < n; i++ {
 		kind := kinds[r.Rng.Intn(len(kinds))]
 		usz := impl.kind[kind].size()
